@@ -40,11 +40,19 @@ func TestC40(t *testing.T) {
 	m.Rule("verify: case i → key kind i mod 8 (rsa2048, rsa1024, ecdsa P-256/384/521, ed25519, certificate over one of them, rsa3072|ed25519), signature source (i/8) mod 6 (Sign, SignWithAlgorithm, NewSignerWithAlgorithms, harness signer, NewCertSigner, default algorithm), RSA algorithm (i/48) mod 3; each valid signature is then changed in exactly one way (other data ×4, other key, other key type, each of " +
 		"28 format names, every blob byte, truncations/extensions, ECDSA r/s re-encodings) and Verify must return nil iff the harness knows the result is valid; changes whose validity the standards leave open are counted, not judged. " +
 		"sk: flags = i mod 256 exactly, signatures from the harness token. notouch: flags = i mod 256 through a real handshake. multi: exhaustive over sublists. " +
+		"conc-sign: one Signer / AlgorithmSigner / MultiAlgorithmSigner / certificate signer / public key per key kind shared by 4-6 goroutines calling SignWithAlgorithm (different RSA algorithms at the same moment) and Verify at once, also under GOMAXPROCS(1); every signature must name the requested algorithm and verify under the independent verifier (byte-identical for RSA/Ed25519), every Verify verdict must equal the precomputed one; interleavings are scheduler-chosen, the verif,race variant adds the race detector. " +
 		"distinct = (key kind, format, source, change class, verdict)")
 	m.Assume("crypto/rsa, crypto/ecdsa, crypto/ed25519, math/big of the standard library; h/ref/sshkeyfmt (own framing, hash selection and PKCS#1 arithmetic; unit-tested against openssl and real FIDO token vectors); openssl CLI as an additional sampled witness")
 	m.Note("ssh-keygen -Y verify is not usable as a witness (the package does not implement the sshsig framing)")
 	m.Note("Judged open (counted only): RSA blobs with stripped/added leading zero bytes, non-minimal mpint encodings of the same r/s, the ECDSA twin (r, n-s), Signature.Rest on non-SK keys, extra bytes after flags‖counter, SignWithAlgorithm(\"\"), Signer.Sign() of a restricted MultiAlgorithmSigner")
 	h := &c40{m: m}
+	nX := len(concSignKinds) * 2 * m.N(1, 6)
+	if mon.RaceBuild {
+		// race-detector variant: only the shared-value concurrency stream
+		m.Cases("conc-sign", nX, h.concCase)
+		c40ConcGates(m, nX)
+		return
+	}
 	if haveTool("openssl") {
 		if d, err := ext.TempDir("c40-"); err == nil {
 			h.dir = d
@@ -64,6 +72,8 @@ func TestC40(t *testing.T) {
 	m.Each("multi", len(multiBases), h.multiCase)
 	m.Each("malformed-keys", 1, h.malformedKeys)
 	m.Each("rsa-short", 4, h.rsaShort)
+	m.Cases("conc-sign", nX, h.concCase)
+	c40ConcGates(m, nX)
 
 	m.Gate("valid_accepted", nV, "valid signatures (original + format-preserving re-presentations) accepted")
 	m.Gate("invalid_rejected:blob-byte", nV*40, "single-byte blob mutations")
